@@ -1115,10 +1115,13 @@ class Event(Boolean):
 
     @instance_descriptor
     def __set__(self, obj, val):
-        if self._mode in ['set-reset', 'set']:
-            super().__set__(obj, val)
-        if self._mode in ['set-reset', 'reset']:
-            self._reset_event(obj, val)
+        try:
+            if self._mode in ['set-reset', 'set']:
+                super().__set__(obj, val)
+        finally:
+            # also when a watcher raised: an Event never stays True
+            if self._mode in ['set-reset', 'reset']:
+                self._reset_event(obj, val)
 
 #-----------------------------------------------------------------------------
 # Tuple
